@@ -7,7 +7,8 @@ EXPLANATION = ("For every non-trivial impl of gix_pack::cache::DecodeEntry (the 
                "trivial by inspection of their one-block bodies): in get(), both pack_id and offset reach the key handed to the map or are both compared by "
                "equality with the stored entry's field of the same name; in put() they are stored under the key / into fields pack_id and offset respectively. "
                "In data::File::resolve_deltas every cache.get/put passes self.id and a `data_offset` of an entry. The object cache is keyed by the full object id. "
-               "Eviction accounting and delta-chain buffer handling are not decided.")
+               "In resolve_deltas every relocation copy after the swapped-buffer delta loop is control-dependent on a `% 2` test of the chain length. "
+               "Eviction accounting and the remaining delta-chain buffer arithmetic are not decided.")
 
 
 def params_in(fl, op):
@@ -15,6 +16,7 @@ def params_in(fl, op):
 
 
 def run(db, chk):
+    parity_rule(db, chk)
     impls = [f for f in db.by_crate["gix_pack"] if f.trait_item in ("gix_pack::cache::DecodeEntry::put", "gix_pack::cache::DecodeEntry::get") and f.kind != "promoted"]
     nontrivial = [f for f in impls if len(f.blocks) > 3]
     chk.floor("DecodeEntry impls", len(impls), 8)
@@ -97,3 +99,47 @@ def run(db, chk):
             fl2 = Flow(f)
             keyed = any(c.is_(r"(put_with_weight|::get)$") and len(c.args) > 1 and 2 in params_in(fl2, c.args[1]) for c in f.calls())
             chk.ob("object-cache-keyed-by-id", f.name, keyed, "map key must derive from the id parameter", "%s:%d" % (f.file, f.line), key="object-cache-key|%s" % f.name)
+
+
+def parity_rule(db, chk):
+    """resolve_deltas applies n deltas while swapping two buffers, so where the final result lies depends on the parity of n: every byte copy that
+    relocates the result after the delta loop must be control-dependent on a test of `x % 2` (an unconditional or otherwise-conditioned move is wrong
+    for one parity).  A version that needs no relocation has no such copy and passes."""
+    from gx.flow import Flow, comparisons, bool_switch_edges
+    f = db.one(r"^gix_pack::data::file::decode::entry::<impl gix_pack::data::File>::resolve_deltas$")
+    fl = Flow(f)
+    applies = f.calls_to(r"delta::apply$")
+    chk.floor("resolve_deltas: delta::apply call inside the chain loop", len(applies), 1)
+    if not applies:
+        return
+    loop = next((l for l in f.loops() if applies[0].block in l["body"]), None)
+    if loop is None:
+        chk.anchor_lost("resolve_deltas: loop around delta::apply")
+        return
+    after = set()
+    for (b, s_) in loop["exits"]:
+        after |= f.reach_from(s_)
+    after -= loop["body"]
+    copies = [c for c in f.calls() if c.block in after and c.is_(r"::(copy_from_slice|copy_within|clone_from_slice)$|ptr::copy(_nonoverlapping)?$")]
+    rems = {pl[0] for bi, si, pl, rv, ln, mc in f.assigns() if rv[0] == "bin" and rv[1] == "Rem" and "p" not in rv[3] and rv[3].get("v") == 2}
+    tests = []
+    for cm in comparisons(f):
+        for side in ("a", "b"):
+            if "p" in cm[side] and (cm[side]["p"][0] in rems or any(r[0] == "var" and False for r in ())):
+                e = bool_switch_edges(f, cm["block"], cm["res"])
+                if e:
+                    tests.append(e)
+    # also `switch` directly on the remainder
+    for bi in f.reachable_blocks():
+        t = f.term(bi)
+        if t[0] == "switch" and "p" in t[1] and t[1]["p"][0] in rems:
+            te = {(bi, tgt) for v, tgt in t[2]}
+            tests.append((te, {(bi, t[3])}))
+    chk.set("relocation_copies_after_delta_loop", len(copies))
+    for c in copies:
+        dep = any(fl.cut_off([c.block], te, start=loop["header"]) or fl.cut_off([c.block], fe, start=loop["header"]) for te, fe in tests)
+        chk.ob("result-location-depends-on-chain-parity", "resolve_deltas %s@after-loop" % c.name.split("::")[-1], dep,
+               "the result of a chain of n swapped-buffer delta applications is moved without a test of n % 2 deciding it",
+               c.where(), key="parity|resolve_deltas|%s" % c.name.split("::")[-1])
+    if not copies:
+        chk.ob("result-location-depends-on-chain-parity", "resolve_deltas (no relocation copy after the loop)", True)
